@@ -97,6 +97,9 @@ def cases(tier, seed):
     # problem as the per-step values of the containing interval (computed by the harness)
     for cid in FORMS:
         out.append(('forms_' + cid, dict(kind='forms', which=cid)))
+    # sequences of calls on the same objects (decided with C10's history machinery: the final problem equals that of fresh objects)
+    # -- a grid with the same start, end and frequency but another main time unit, after a set-up on the first
+    out.append(('history_same_instants_other_main_time_unit_after_an_earlier_setup', common.delegated('c10', pf='dicts', final='dunit', histories=[['h']], isolate=True)))
     return out
 
 
